@@ -26,8 +26,11 @@ enum End {
     /// quit, then the client hangs up without reading the answer (the server's answer meets a
     /// closed socket, its own shutdown fails)
     QuitHangUp,
+    /// quit / quitq answered and closed by the server, but the client keeps its own socket open
+    QuitLinger,
+    QuitQLinger,
 }
-const ENDS: [End; 11] = [
+const ENDS: [End; 13] = [
     End::Close,
     End::Quit,
     End::QuitQ,
@@ -39,6 +42,8 @@ const ENDS: [End; 11] = [
     End::MidRequestStall,
     End::OversizedStall,
     End::QuitHangUp,
+    End::QuitLinger,
+    End::QuitQLinger,
 ];
 
 struct Conn {
@@ -119,6 +124,14 @@ fn end_conn(w: &NetWorld, conns: &mut Vec<Conn>, i: usize, kind: End, limit_item
                 return Some("quitq: connection not closed by the server".into());
             }
             conns[i].c.close(w);
+        }
+        End::QuitLinger | End::QuitQLinger => {
+            let opc = if kind == End::QuitLinger { op::QUIT } else { op::QUITQ };
+            let _ = conns[i].c.step(w, &Req::bare(opc).opaque(0x76).bytes());
+            if !conns[i].c.eof {
+                return Some(format!("{:?}: connection not closed by the server", kind));
+            }
+            // the client's socket stays open (it is dropped with the scenario)
         }
         End::QuitHangUp => {
             let _ = conns[i].c.send(w, &Req::bare(op::QUIT).opaque(0x75).bytes());
